@@ -115,7 +115,8 @@ def lockstep(a, b, path, lenient_extra=False, stats=None):
             if r:
                 return r
         return None
-    if a != b:
+    if a != b or (isinstance(a, (bool, float)) or isinstance(b, (bool, float))) and type(a) is not type(b):
+        # 1 == 1.0 == True in Python: a value that comes back as another type is another value
         return path, f'value differs: {a!r} vs {b!r}'[:200]
     return None
 
@@ -349,7 +350,23 @@ def _builtin_conv_fails(marked):
     return bool(found)
 
 
+def make_scalar_case(rnd, tag):
+    """typed rules without names whose value is a bare scalar: equal values of different types (1, 1.0, True / 0, 0.0, False) reach the same
+    node class one after the other; the node's ast (or the builtin conversion) is the value of THIS match"""
+    alts = [('seq', (('skipgrp', ('tok', t)), ('meta', m))) for t, m in rnd.sample([('i', 'int'), ('f', 'float'), ('b', 'bool')], rnd.randint(2, 3))]
+    rules = [('start', ('seq', (('star', ('alt', (('call', 'v'), ('seq', (('tok', '+'), ('call', 'sv')))))), ('eof',)))),
+             ('v', ('alt', tuple(alts))), ('sv', ('alt', tuple(alts)))]
+    ruleinfo = {'v': dict(params=(f'T{tag}v',)), 'sv': dict(params=(rnd.choice(['str', 'str', 'float', f'T{tag}s']),))}
+    zero = rnd.random() < 0.5
+    gen.EXAMPLES['@int'] = ['0'] if zero else ['1']
+    gen.EXAMPLES['@float'] = ['0.0'] if zero else ['1.0']
+    gen.EXAMPLES['@bool'] = ['false'] if zero else ['true']
+    return rules, ruleinfo
+
+
 def make_case(rnd, tag):
+    if rnd.random() < 0.12:
+        return make_scalar_case(rnd, tag)
     gcfg = gen.GenCfg(cut=False, skipto=False, lookahead=False)
     rules = gen.gen_rules(rnd, gcfg)
     ruleinfo = {}
@@ -375,9 +392,14 @@ def make_case(rnd, tag):
             spec = f'T{tag}r{i}' + (tail if rnd.random() < 0.6 else '')
             ruleinfo[n] = dict(params=(spec,))
     # a based rule (name < base) with a type of its own over a typed base rule
-    if len(rules) >= 2 and rnd.random() < 0.2:
+    if len(rules) >= 2 and rnd.random() < 0.3:
         base = rules[-1][0] if rules[-1][0] != 'num' else rules[-2][0]
         if base != rules[0][0]:
+            # the base rule defines named elements (the derived rule's node has them too)
+            bx = dict(rules)[base]
+            if not any(e[0] in ('named', 'namedl') for e in walk(bx)) and rnd.random() < 0.8:
+                bx = ('seq', (('named', 'bn', ('tok', 'a')), bx)) if rnd.random() < 0.5 else ('seq', (bx, ('namedl', 'bl', ('tok', 'c'))))
+                rules = [(n, (bx if n == base else x)) for n, x in rules]
             rules.append(('bsub', ('seq', (('tok', 'b'), ('opt', ('tok', ','))))))
             ruleinfo['bsub'] = dict(params=(f'T{tag}rb' + (tail if rnd.random() < 0.5 else ''),), base=base)
             n0, x0 = rules[0]
@@ -429,6 +451,8 @@ def run_shard(sh, n):
                     cls.append('base-chain')
                 if 'num' in ruleinfo:
                     cls.append('builtin-type')
+                if 'sv' in ruleinfo:
+                    cls.append('scalar-valued typed rules (1 / 1.0 / True)')
                 if info.get('genparser'):
                     cls.append('generated-parser asmodel route compared')
                 sh.case((gtext.replace(f'{sh.index}x{_tag[0]}', ''), text), info.get('nodes', 0) >= 2 and info.get('nested', 0) > 0, cls,
